@@ -303,11 +303,21 @@ func condFunc(rid, idx int, hdr string) restful.RouteSelectionConditionFunction 
 // AddRoute registers one RouteSpec on a WebService.
 func AddRoute(ws *restful.WebService, rs *RouteSpec, o BuildOpts) {
 	b := ws.Method(rs.Method).Path(rs.Render()).To(routeFunc(rs.ID, o.Entity)).Operation("r"+strconv.Itoa(rs.ID)).Metadata("rid", rs.ID)
-	if len(rs.Consumes) > 0 {
-		b.Consumes(rs.Consumes...)
-	}
-	if len(rs.Produces) > 0 {
-		b.Produces(rs.Produces...)
+	if rs.ViaSvc {
+		// the lists come from the WebService's defaults, which a RouteBuilder without own lists inherits when it is added
+		ws.Consumes(rs.Consumes...)
+		ws.Produces(rs.Produces...)
+		defer func() {
+			ws.Consumes()
+			ws.Produces()
+		}()
+	} else {
+		if len(rs.Consumes) > 0 {
+			b.Consumes(rs.Consumes...)
+		}
+		if len(rs.Produces) > 0 {
+			b.Produces(rs.Produces...)
+		}
 	}
 	if len(rs.NoCT) > 0 {
 		b.AllowedMethodsWithoutContentType(rs.NoCT)
